@@ -15,7 +15,9 @@ dataclass instance (fields in declaration order)                    `PV.dataclas
 namedtuple instance                                                 `PV.namedtuple cls fields`
 
 returned task:
-the unaltered object (no Delayed inside: `return expr, ()`)         `TT.obj p`
+the object itself when no Delayed is inside (`return expr, ()`);   `TT.obj p`
+  iterators inside it have been consumed and are replaced by the
+  containers they were converted to (`deiter`)
 TaskRef(key)                                                        `TT.ref k`
 List(*args)                                                         `TT.list ts`
 Task(None, typ, List(*args))   typ = tuple | set                    `TT.conv kind (TT.list ts)`
@@ -61,6 +63,26 @@ inductive TT where
   | namedtuple (cls : Nat) (ts : List TT)
   deriving Repr, Inhabited
 
+mutual
+/-- the object with every list / tuple / set iterator inside replaced by the list / tuple / set it was converted to:
+    what is handed on when no Delayed is found (the traversal has consumed the iterators) -/
+def deiter : PV → PV
+  | .lit v => .lit v
+  | .del k => .del k
+  | .cont k xs => .cont k (deiterL xs)
+  | .iter k xs => .cont k (deiterL xs)
+  | .dict kvs => .dict (deiterP kvs)
+  | .slice a b c => .slice (deiter a) (deiter b) (deiter c)
+  | .dataclass cls fs => .dataclass cls (deiterL fs)
+  | .namedtuple cls fs => .namedtuple cls (deiterL fs)
+def deiterL : List PV → List PV
+  | [] => []
+  | x :: xs => deiter x :: deiterL xs
+def deiterP : List (PV × PV) → List (PV × PV)
+  | [] => []
+  | (k, v) :: r => (deiter k, deiter v) :: deiterP r
+end
+
 /-- the container a list / tuple / set (or its iterator) is rebuilt as -/
 def rebuild (k : CK) (ts : List TT) : TT :=
   match k with
@@ -75,30 +97,30 @@ def unpack : PV → TT × List Nat
   | .cont k xs =>
     let r := unpackL xs
     let cs := r.2
-    if cs.isEmpty then (.obj (.cont k xs), []) else (rebuild k r.1, cs)
+    if cs.isEmpty then (.obj (deiter (.cont k xs)), []) else (rebuild k r.1, cs)
   | .iter k xs =>
     -- `expr = list(expr)` (tuple / set likewise) comes first: the object returned when nothing is found is the converted one
     let r := unpackL xs
     let cs := r.2
-    if cs.isEmpty then (.obj (.cont k xs), []) else (rebuild k r.1, cs)
+    if cs.isEmpty then (.obj (deiter (.cont k xs)), []) else (rebuild k r.1, cs)
   | .dict kvs =>
     let r := unpackP kvs
     let cs := r.2.1 ++ r.2.2
-    if cs.isEmpty then (.obj (.dict kvs), []) else (.dict r.1, cs)
+    if cs.isEmpty then (.obj (deiter (.dict kvs)), []) else (.dict r.1, cs)
   | .slice a b c =>
     let ra := unpack a
     let rb := unpack b
     let rc := unpack c
     let cs := ra.2 ++ rb.2 ++ rc.2
-    if cs.isEmpty then (.obj (.slice a b c), []) else (.slice ra.1 rb.1 rc.1, cs)
+    if cs.isEmpty then (.obj (deiter (.slice a b c)), []) else (.slice ra.1 rb.1 rc.1, cs)
   | .dataclass cls fs =>
     let r := unpackL fs
     let cs := r.2
-    if cs.isEmpty then (.obj (.dataclass cls fs), []) else (.dataclass cls r.1, cs)
+    if cs.isEmpty then (.obj (deiter (.dataclass cls fs)), []) else (.dataclass cls r.1, cs)
   | .namedtuple cls fs =>
     let r := unpackL fs
     let cs := r.2
-    if cs.isEmpty then (.obj (.namedtuple cls fs), []) else (.namedtuple cls r.1, cs)
+    if cs.isEmpty then (.obj (deiter (.namedtuple cls fs)), []) else (.namedtuple cls r.1, cs)
 /-- the elements one by one; the collections concatenated -/
 def unpackL : List PV → List TT × List Nat
   | [] => ([], [])
